@@ -49,6 +49,8 @@ structure Inst where
   h   : Spec.Hist
   wc  : Spec.WinCfg
   dirty : Bool := false        -- a promise was resolved twice (outside the property's hypothesis)
+  sheds : Nat := 0             -- requests shed so far
+  lapses : Nat := 0            -- drop episodes whose cool-off a calm Allow has seen expire
 
 structure Prom where
   id : Nat
@@ -233,6 +235,13 @@ def runSection (r : Report) (s : Section) : Report := Id.run do
           r := r.addCover (if drop then (if over then "shed-cpu-over" else "shed-still-hot")
                            else if gate then "allowed-gate-open-low-thru" else
                              (if sh.droppedRecently && !sg.droppedRecently then "allowed-cooloff-lapsed" else "allowed-gate-closed"))
+          -- the life of droppedRecently: episodes, their end, and the Allows after an ended episode for which a stale flag would matter
+          let lapsedNow := sh.droppedRecently && !sg.droppedRecently
+          if !over && inst.lapses > 0 && !inst.h.inProgress && (match inst.h.lastOver with | some t => decide (st.now - t < coolOffNs) | none => false)
+              && sg.highThru st.now cpu then
+            r := r.addCover "lifecycle-calm-allow-high-thru-within-1s-of-hot-admission-after-ended-episode"
+          if !over && sh.droppedRecently && !lapsedNow then r := r.addCover "lifecycle-calm-allow-during-episode"
+          if over && !drop && inst.lapses > 0 then r := r.addCover "lifecycle-hot-admission-after-ended-episode"
           if drop && overloadFactor sh.cpuThreshold cpu = factorLowerBound then r := r.addCover "shed-factor-floor"
           if drop && overloadFactor sh.cpuThreshold cpu = 1 then r := r.addCover "shed-factor-one"
           if !drop && over && decide ((sg.flying : Rat) > lim) then r := r.addCover "allowed-avg-lagging"
@@ -264,7 +273,11 @@ def runSection (r : Report) (s : Section) : Report := Id.run do
             else if !inst.dirty && kvInt l.obs "flying" (-999) ≠ h'.inFlight then
               r := r.violation s.idx l.idx s!"in-flight counter {kvInt l.obs "flying" (-999)} but admitted-resolved = {h'.inFlight}"
           let h' := inst.h.observe (.allow over v)
-          st := { st with insts := setInst st.insts { inst with sh := sh', h := h' } }
+          let lapsedNow' := inst.sh.droppedRecently && !(inst.sh.afterGate st.now over).droppedRecently
+          let nSheds := inst.sheds + (if implShed then 1 else 0)
+          let nLapses := inst.lapses + (if lapsedNow' then 1 else 0)
+          let inst' : Inst := { inst with sh := sh', h := h', sheds := nSheds, lapses := nLapses }
+          st := { st with insts := setInst st.insts inst' }
           if !implShed then
             st := { st with proms := st.proms ++ [{ id := pid, key := key, start := st.now }] }
       | _, _, _, _ => r := r.mismatch s.idx l.idx "bad-op" (joinSp l.op)
